@@ -427,6 +427,14 @@ pub fn record(args: &[String]) {
             }
         }
     }
+    // the corner of the quantifier in every tier: 32 chains x 16 dimensions, 64 leapfrog steps
+    if !only_bad_targets {
+        let si: Vec<Vec<f64>> = (0..32).map(|_| (0..16).map(|_| rnd(-3.0, 3.0)).collect()).collect();
+        record_run::<B64, f64, _>(&mut out, "student/f64 32x16 L=64", Own::Student { nu: 3.0 }, StudentT { nu: 3.0 }, si.clone(), 0.05, 64, 6, seed + 900, 1e-7, &mut moved);
+        record_run::<B32, f32, _>(&mut out, "student/f32 32x16 L=64", Own::Student { nu: 3.0 }, StudentT { nu: 3.0 }, si.clone(), 0.02, 64, 6, seed + 901, 3e-4, &mut moved);
+        let ni: Vec<Vec<f64>> = (0..32).map(|_| (0..16).map(|_| rnd(-0.5, 1.0)).collect()).collect();
+        record_run::<B64, f64, _>(&mut out, "rosenN/f64 32x16 L=17", Own::RosenN, RosenbrockND {}, ni, 0.002, 17, 6, seed + 902, 1e-7, &mut moved);
+    }
     let n = out.finish();
     println!("{}", json!({"summary": true, "events": n, "moved": moved}));
 }
